@@ -5,7 +5,7 @@ import numpy as np
 
 RULE = ("for poly_trend in {1,2} x n_offsets in {0,1}: the well-formed prior is accepted with parameters in the order nonlinear, linear, offsets; "
         "then one defect at a time on each parameter: omitted / without unit / unit of the wrong dimension / linear prior that is not Normal "
-        "(Uniform, StudentT) / not a random variable; data/prior count mismatches with 1..3 sources; sources of unsupported form; TheJoker "
+        "(Uniform, StudentT, HalfNormal, LogNormal, TruncatedNormal, SkewNormal) / not a random variable; data/prior count mismatches with 1..3 sources; sources of unsupported form; TheJoker "
         "argument checks; non-trivial = a defective input")
 EXHAUSTIVE = True
 BOUNDED = []
@@ -21,7 +21,7 @@ def cases(tier, seed):
         for par in NONLIN + lin + off:
             defects = ["omit", "no-unit", "wrong-dim"] if par not in off else ["no-unit", "wrong-dim"]
             if par in lin + off:
-                defects += ["uniform", "studentt", "deterministic"]
+                defects += ["uniform", "studentt", "deterministic", "halfnormal", "lognormal", "truncatednormal", "skewnormal"]
             if tier == "quick" and (pt_, no) != (2, 1) and par in ("e", "M0", "s"):
                 continue
             for d in defects:
@@ -70,6 +70,14 @@ def _pars(pt_, no, defect, par):
                 v = pm.Uniform(name, -5, 5)
             elif d == "studentt":
                 v = pm.StudentT(name, nu=3, mu=0, sigma=2)
+            elif d == "halfnormal":          # distributions whose NAME contains "Normal" but which are not Normal
+                v = pm.HalfNormal(name, sigma=5.0)
+            elif d == "lognormal":
+                v = pm.LogNormal(name, mu=0.0, sigma=1.0)
+            elif d == "truncatednormal":
+                v = pm.TruncatedNormal(name, mu=0.0, sigma=5.0, lower=-1.0, upper=8.0)
+            elif d == "skewnormal":
+                v = pm.SkewNormal(name, mu=0.0, sigma=5.0, alpha=3.0)
             elif d == "deterministic":
                 v = pt.as_tensor_variable(np.float64(1.0)) * 1.0
                 v.name = name
